@@ -404,8 +404,13 @@ class INSMonitor:
                   "max_samples": ns.max_samples, "nlive": int(ns.nlive)}
         capped = bool(ns.draw_constant and ns.max_samples
                       and ((size - n_below) + ns.nlive) >= ns.max_samples)
-        if ns.draw_constant and ns.max_samples and ((size - n_below) + ns.nlive) > ns.max_samples:
-            ctx.violation("C17-max-samples", detail)
+        # samples tied with the threshold (clip=True piles draws into one corner) cannot be separated by any
+        # likelihood value: the cap is judged on the cut index, i.e. counting the tied samples as removable
+        n_tied = int(np.sum(ll == out)) - 1
+        if n_tied:
+            ctx.probe("ins_threshold_tied_with_other_samples")
+        if ns.draw_constant and ns.max_samples and ((size - n_below - n_tied) + ns.nlive) > ns.max_samples:
+            ctx.violation("C17-max-samples", dict(detail, tied_with_threshold=n_tied))
         if not ties and ns.min_remove >= 1:
             if (size - n1) < ns.min_samples:
                 ctx.probe("ins_clamped_min_samples")
